@@ -329,7 +329,7 @@ def c08_batches(seed, tier, cfgmode="literal"):
     batches = []
     n_walks, length = (10, 150) if tier == "quick" else (60, 500)
     acts = {"KEY_F1": "octave_down", "KEY_F2": "octave_up", "KEY_F3": "semitone_down", "KEY_F4": "semitone_up",
-            "KEY_F5": "channel_down", "KEY_F6": "channel_up"}
+            "KEY_F5": "channel_down", "KEY_F6": "channel_up", "KEY_F9": "cc_learning"}
     for dzn, dzd in [(0, 1), (1, 10)] if tier == "quick" else [(0, 1), (1, 10), (1, 4), (1, 20)]:
         for flip in (False, True):
             ax = {
@@ -340,15 +340,18 @@ def c08_batches(seed, tier, cfgmode="literal"):
                 "ABS_RZ": axis("key", note=5, noteNeg=122, off=0, offNeg=0, bidi=True, dzn=0, dzd=1),
                 "ABS_GAS": axis("key", note=36, off=2, bidi=False, flip=False, dzn=dzn, dzd=dzd),     # trigger: rest = 0
                 "ABS_BRAKE": axis("key", note=38, off=0, bidi=False, flip=True, dzn=0, dzd=1),       # flipped trigger
+                # evdev code 1: its decimal code is a prefix of the codes of ABS_BRAKE (10) and ABS_HAT0X (16) - axes are independent
+                "ABS_Y": axis("key", note=52, noteNeg=53, off=0, offNeg=1, bidi=True, flip=flip, dzn=dzn, dzd=dzd),
+                "ABS_HAT0Y": axis("key", note=66, noteNeg=67, off=2, offNeg=0, bidi=True, dzn=0, dzd=1),
             }
             info = {"ABS_HAT0X": {"min": -1, "max": 1}, "ABS_X": {"min": -128, "max": 127}, "ABS_Z": {"min": 0, "max": 255},
                     "ABS_RX": {"min": -32768, "max": 32767}, "ABS_RZ": {"min": -100, "max": 100}, "ABS_GAS": {"min": 0, "max": 255},
-                    "ABS_BRAKE": {"min": 0, "max": 1023}}
+                    "ABS_BRAKE": {"min": 0, "max": 1023}, "ABS_Y": {"min": -128, "max": 127}, "ABS_HAT0Y": {"min": -1, "max": 1}}
             cfg = base_cfg(dChan=rng.randrange(16), actions=acts, maps=[{"name": "M1", "keys": {}, "axes": ax}], axinfo=info)
             walks = []
             for _ in range(n_walks):
                 w = []
-                axes = rng.sample(sorted(ax), rng.choice([1, 2, 7]))
+                axes = rng.sample(sorted(ax), rng.choice([1, 2, 3, 9]))
                 for _ in range(length):
                     if rng.random() < 0.15:
                         k = rng.choice(sorted(acts))
@@ -390,7 +393,7 @@ def akey_mapping_batches(seed, tier, cfgmode="literal"):
     batches = []
     n_walks, length = (10, 150) if tier == "quick" else (60, 500)
     acts = {"KEY_F1": "octave_down", "KEY_F2": "octave_up", "KEY_F5": "channel_down", "KEY_F6": "channel_up",
-            "KEY_F11": "mapping_down", "KEY_F12": "mapping_up"}
+            "KEY_F11": "mapping_down", "KEY_F12": "mapping_up", "KEY_F9": "cc_learning"}
     info = {"ABS_HAT0X": {"min": -1, "max": 1}, "ABS_X": {"min": -128, "max": 127}, "ABS_Z": {"min": 0, "max": 255},
             "ABS_RZ": {"min": -100, "max": 100}}
     for nmaps in (2, 3):
@@ -564,6 +567,37 @@ def c05_batches(seed, tier):
         tap("KEY_ESC")
         w.append({"ev": "disconnect"})
         batches.append({"cfg": cfg, "cfgmode": "toml", "sub": "", "optional": True, "walks": [w]})
+    # every current channel x every kind of axis / key with channel offsets 1, 3, 8, 15: each sum (channel + offset),
+    # 16 exactly included, for Control Change, Pitch Bend and Note status bytes
+    for flip in (False, True):
+        ax = {"ABS_X": axis("cc", cc=20, ccNeg=21, off=1, offNeg=15, bidi=True, flip=flip, dzn=0, dzd=1),
+              "ABS_Y": axis("pitch_bend", off=3, flip=flip, dzn=1, dzd=10),
+              "ABS_Z": axis("cc", cc=22, off=8, centre=False, dzn=0, dzd=1),
+              "ABS_RX": axis("key", note=100, noteNeg=27, off=15, offNeg=1, bidi=True, dzn=0, dzd=1),
+              "ABS_RZ": axis("pitch_bend", off=15, dzn=0, dzd=1),
+              "ABS_RY": axis("pitch_bend", off=rng.choice([2, 5, 9, 12]), flip=not flip, dzn=0, dzd=1)}
+        info = {"ABS_X": {"min": -128, "max": 127}, "ABS_Y": {"min": -32768, "max": 32767}, "ABS_Z": {"min": 0, "max": 255},
+                "ABS_RX": {"min": -1, "max": 1}, "ABS_RZ": {"min": 0, "max": 1023}, "ABS_RY": {"min": -100, "max": 100}}
+        cfg = base_cfg(mode="interrupt", vel=100, dChan=rng.randrange(16),
+                       actions={"KEY_ESC": "panic", "KEY_F6": "channel_up", "KEY_F5": "channel_down"},
+                       maps=[{"name": "M1", "keys": {"KEY_A": {"n": 0, "o": 1}, "KEY_S": {"n": 127, "o": 8}, "KEY_D": {"n": 60, "o": 15},
+                                                     "KEY_F": {"n": 61, "o": 3}}, "axes": ax}], axinfo=info)
+        w = []
+        for _ in range(16):
+            w += [{"ev": "press", "k": "KEY_F5"}, {"ev": "release", "k": "KEY_F5"}]
+        for ch in range(16):
+            for k in ("KEY_A", "KEY_S", "KEY_D", "KEY_F"):
+                w += [{"ev": "press", "k": k}, {"ev": "release", "k": k}]
+            for a in sorted(ax):
+                mn, mx = info[a]["min"], info[a]["max"]
+                for p in (mx, mn, 0 if mn < 0 else (mn + mx) // 2, mx - (mx - mn) // 3):
+                    if not on_float_boundary(info[a], ax[a], p):
+                        w.append({"ev": "axis", "a": a, "raw": p})
+            if ch % 5 == 0:
+                w += [{"ev": "press", "k": "KEY_ESC"}, {"ev": "release", "k": "KEY_ESC"}]
+            w += [{"ev": "press", "k": "KEY_F6"}, {"ev": "release", "k": "KEY_F6"}]
+        w.append({"ev": "disconnect"})
+        batches.append({"cfg": cfg, "cfgmode": "toml", "sub": "", "walks": [w]})
     return batches
 
 
